@@ -61,9 +61,16 @@ pub fn offer(w: &mut World, text: &TextRef, faults_: &[TokFault], reader: Bk, ar
             let same = redisplay == d.text
                 || (artifact.is_token() && redisplay.matches('.').count() == 2 && d.text == format!("{redisplay}."));
             if !same {
+                // base64-level (the segment is not strict unpadded base64url) or value-level (the
+                // decoded bytes are a non-canonical encoding of the value, e.g. an uncompressed point)?
+                let strict = {
+                    let body = d.text.splitn(3, '.').nth(2).unwrap_or("");
+                    let body = if artifact.is_token() { body.to_string() } else { body.rsplit('.').next().unwrap_or("").to_string() };
+                    body.split('.').all(|seg| faults::unb64(seg).is_some())
+                };
                 w.violate(
                     "C09",
-                    "noncanonical-accepted",
+                    if strict { "noncanonical-value-encoding-accepted" } else { "noncanonical-base64-accepted" },
                     reader,
                     &op,
                     &fclass,
@@ -83,15 +90,17 @@ pub fn offer(w: &mut World, text: &TextRef, faults_: &[TokFault], reader: Bk, ar
                 );
             }
             if expect == Some(false) {
-                let (prop, class): (&'static str, &str) = match why.split_once(':') {
-                    Some(("C08", c)) => ("C08", c),
-                    Some(("C09", c)) => ("C09", c),
-                    Some(("C13", c)) => ("C13", c),
-                    Some((_, c)) => ("C10", c),
-                    None => ("C10", "must-reject-accepted"),
+                // why = "<property>:<class>:<description>"
+                let mut it = why.splitn(3, ':');
+                let prop: &'static str = match it.next() {
+                    Some("C08") => "C08",
+                    Some("C09") => "C09",
+                    Some("C13") => "C13",
+                    _ => "C10",
                 };
-                let class = class.to_string();
-                w.violate(prop, &class, reader, &op, &truncate(&orig, 48), format!("{} parser accepted {:?} ({why})", artifact.name(), truncate(&d.text, 100)));
+                let class = it.next().unwrap_or("must-reject-accepted").to_string();
+                let desc = it.next().unwrap_or("").to_string();
+                w.violate(prop, &class, reader, &op, &desc, format!("{} parser accepted {:?} ({desc})", artifact.name(), truncate(&d.text, 100)));
             }
             w.stats.bump("offer:accepted");
         }
@@ -107,8 +116,15 @@ pub fn offer(w: &mut World, text: &TextRef, faults_: &[TokFault], reader: Bk, ar
                 );
             }
             if expect == Some(true) {
-                let prop: &'static str = if why.starts_with("C08") { "C08" } else if why.starts_with("C13") { "C13" } else { "C09" };
-                w.violate(prop, "valid-text-rejected", reader, &op, &truncate(&orig, 48), format!("{} parser rejected {:?}: {e:?} ({why})", artifact.name(), truncate(&d.text, 100)));
+                let mut it = why.splitn(3, ':');
+                let prop: &'static str = match it.next() {
+                    Some("C08") => "C08",
+                    Some("C13") => "C13",
+                    _ => "C09",
+                };
+                let _ = it.next();
+                let desc = it.next().unwrap_or("").to_string();
+                w.violate(prop, "valid-text-rejected", reader, &op, &desc, format!("{} parser rejected {:?}: {e:?} ({desc})", artifact.name(), truncate(&d.text, 100)));
             }
             w.stats.bump("offer:rejected");
         }
@@ -157,5 +173,40 @@ pub fn serde_check(w: &mut World, text: &TextRef, reader: Bk, artifact: Artifact
         if let Out::Ok(v) = be.serde_parse(artifact, bad) {
             w.violate("C09", "serde-accepts-non-string", reader, &op, bad, format!("deserialised {bad} into {v}"));
         }
+    }
+}
+
+pub fn id_rel(w: &mut World, reader: Bk, a: &TextRef, b: &TextRef) {
+    let (Some((s1, f1, art1)), Some((s2, f2, art2))) = (w.resolve_text(a), w.resolve_text(b)) else {
+        w.stats.bump("skipped:idrel-missing");
+        return;
+    };
+    if f1 != reader.family() || f2 != reader.family() || art1 != art2 {
+        return;
+    }
+    let be = backend(reader);
+    w.stats.evaluations += 1;
+    w.stats.bump(&format!("op:idrel:{}", reader.name()));
+    w.stats.distinct.insert(format!("idrel|{}|{}", reader.name(), art1.name()));
+    w.log.update_str(&format!("idrel {} {s1} {s2}", reader.name()));
+    let op = format!("idrel-{}", art1.name());
+    match be.id_relations(art1, &s1, &s2) {
+        Out::Ok((eq, cmp, heq, ba, bb, sets_ok)) => {
+            let beq = ba == bb;
+            let bcmp = match ba.cmp(&bb) {
+                std::cmp::Ordering::Less => -1,
+                std::cmp::Ordering::Equal => 0,
+                std::cmp::Ordering::Greater => 1,
+            };
+            if eq != beq || cmp != bcmp || (beq && !heq) || !sets_ok {
+                w.violate("C13", "eq-ord-hash-disagree-with-bytes", reader, &op, "", format!("eq={eq} cmp={cmp} hash_eq={heq} sets_ok={sets_ok} but bytes eq={beq} cmp={bcmp}"));
+            }
+            let hdr_len = s1.rfind('.').map(|i| i + 1).unwrap_or(0);
+            if faults::unb64(&s1[hdr_len..]).as_deref() != Some(&ba[..]) {
+                w.violate("C13", "id-text-roundtrip", reader, &op, "", "parsed id bytes differ from the text".into());
+            }
+        }
+        Out::Err(e) => w.violate("C13", "valid-id-rejected", reader, &op, "", format!("{e:?}: {s1} / {s2}")),
+        Out::Panic(p) => w.violate("C04", "panic", reader, &op, "", p),
     }
 }
